@@ -67,6 +67,9 @@ func (t *TapSet) tap(l *simnet.Link, dir int, b []byte) []byte {
 		if dir == 1 {
 			from, to = to, from
 		}
+		if simrt.DebugEnabled() {
+			simrt.Debugf("frame %s>%s type=0x%02x sid=%d len=%d", from, to, ftype, sid, len(payload))
+		}
 		evs = append(evs, &FrameEvent{Seq: simrt.Seq(), Link: l, Dir: dir, From: from, To: to, Type: ftype, Flags: flags, StreamID: sid, Payload: payload})
 		t.Frames++
 		t.ByType[ftype]++
